@@ -269,6 +269,181 @@ fn explicit_case(case: u64, rng: &mut Rng, rep: &mut Report) {
     }
 }
 
+/// merge_filtered_segments: segments of one or two indexes merged into a fresh directory under a
+/// caller-supplied alive set per segment (intersected with the segment's own deletes). The
+/// merged segment must hold exactly the documents alive under both, each with the stored fields,
+/// fast fields, norms and postings it had in its source segment.
+fn filtered_case(case: u64, rng: &mut Rng, rep: &mut Report) {
+    let n = rng.urange(1, 2);
+    let mut g = HistGen::new();
+    let hs = hschema();
+    // multi-block doc stores in two thirds of the cases: a source without deletes of its own is
+    // a candidate for block stacking, which a custom alive set must prevent
+    let blocksize = if rng.chance(2, 3) { *rng.pick(&[24usize, 64, 160, 400]) } else { 0 };
+    set_docstore_blocksize(blocksize);
+    let mut segments = vec![];
+    let mut settings = None;
+    for _ in 0..n {
+        let cfg = ExecCfg { threads: 1, merge_policy: false, sort: None, budget_per_thread: 15_000_000 };
+        let Ok(mut ex) = Exec::create(Box::new(RamDirectory::create()), cfg, None) else {
+            rep.violation("api-error:create", json!(null));
+            return;
+        };
+        for _ in 0..rng.urange(1, 3) {
+            for _ in 0..rng.urange(1, 25) {
+                ex.step(&Op::Add(g.doc(rng, 4)));
+            }
+            ex.step(&Op::Commit);
+        }
+        if rng.chance(1, 3) {
+            ex.step(&Op::DeleteTerm(Pred::Grp(rng.below(4))));
+            ex.step(&Op::Commit);
+        }
+        if let Some(w) = ex.writer.take() {
+            let _ = w.wait_merging_threads();
+        }
+        settings = Some(ex.index.settings().clone());
+        match ex.index.searchable_segments() {
+            Ok(segs) => segments.extend(segs),
+            Err(e) => {
+                rep.violation("api-error:searchable_segments", json!(e.to_string()));
+                return;
+            }
+        }
+    }
+    set_docstore_blocksize(0);
+    let mut sources = vec![];
+    let mut filters: Vec<Option<tantivy::fastfield::AliveBitSet>> = vec![];
+    let mut shape = vec![];
+    for seg in &segments {
+        let sr = match tantivy::SegmentReader::open(seg) {
+            Ok(sr) => sr,
+            Err(e) => {
+                rep.violation("api-error:SegmentReader::open", json!(e.to_string()));
+                return;
+            }
+        };
+        let mut dump = match dump_segment(&sr, &hs) {
+            Ok(d) => d,
+            Err((sig, d)) => {
+                rep.violation(format!("source-{sig}"), json!({"detail": d}));
+                return;
+            }
+        };
+        let max_doc = sr.max_doc();
+        let mode = rng.below(5);
+        if mode == 0 {
+            filters.push(None);
+            shape.push(if sr.has_deletes() { "nofilter+deletes" } else { "nofilter" });
+        } else {
+            // 1 = keep all, 2 = drop one document, 3 = random half, 4 = keep one
+            let mut bits = tantivy_common::BitSet::with_max_value(max_doc);
+            let victim = rng.below(max_doc as u64) as u32;
+            for doc in 0..max_doc {
+                let keep = match mode {
+                    1 => true,
+                    2 => doc != victim,
+                    3 => rng.bool(),
+                    _ => doc == victim,
+                };
+                if keep {
+                    bits.insert(doc);
+                }
+            }
+            let Ok(idc) = sr.fast_fields().u64("id") else {
+                rep.harness_error("no id column".to_string());
+                return;
+            };
+            let mut keep_ids: BTreeSet<u64> = BTreeSet::new();
+            for doc in 0..max_doc {
+                if bits.contains(doc) {
+                    keep_ids.extend(idc.values_for_doc(doc));
+                }
+            }
+            let mut i = 0;
+            let order = std::mem::take(&mut dump.order);
+            let vals = std::mem::take(&mut dump.vals_in_order);
+            for (k, id) in order.iter().enumerate() {
+                if keep_ids.contains(id) {
+                    dump.order.push(*id);
+                    if let Some(v) = vals.get(k) {
+                        dump.vals_in_order.push(*v);
+                    }
+                    i += 1;
+                }
+            }
+            let _ = i;
+            dump.docs.retain(|id, _| keep_ids.contains(id));
+            let mut buf: Vec<u8> = vec![];
+            if tantivy::fastfield::write_alive_bitset(&bits, &mut buf).is_err() {
+                rep.harness_error("write_alive_bitset failed".to_string());
+                return;
+            }
+            filters.push(Some(tantivy::fastfield::AliveBitSet::open(tantivy::directory::OwnedBytes::new(buf))));
+            shape.push(match (mode, sr.has_deletes()) {
+                (1, false) => "keep-all",
+                (1, true) => "keep-all+deletes",
+                (2, false) => "drop-one",
+                (2, true) => "drop-one+deletes",
+                (3, false) => "half",
+                (3, true) => "half+deletes",
+                (_, false) => "keep-one",
+                (_, true) => "keep-one+deletes",
+            });
+        }
+        sources.push(dump);
+    }
+    rep.eval();
+    let live: usize = sources.iter().map(|s| s.order.len()).sum();
+    let Some(settings) = settings else { return };
+    let merged = match guarded(|| tantivy::indexer::merge_filtered_segments(&segments, settings, filters, RamDirectory::create())) {
+        Ok(Ok(i)) => i,
+        Ok(Err(e)) => {
+            if live == 0 {
+                return;
+            }
+            rep.violation("api-error:merge_filtered_segments", json!({"case": case, "err": e.to_string()}));
+            return;
+        }
+        Err(p) => {
+            if p.in_harness() {
+                rep.harness_error(p.message);
+            } else {
+                rep.violation(p.sig(), json!({"case": case, "panic": p.message, "live_docs": live, "shape": shape}));
+            }
+            return;
+        }
+    };
+    let reader = match merged.reader() {
+        Ok(r) => r,
+        Err(e) => {
+            rep.violation("api-error:filtered-merged-reader", json!(e.to_string()));
+            return;
+        }
+    };
+    let s = reader.searcher();
+    rep.count("merge_filtered_validated", 1);
+    rep.count("merge_filtered_docs_compared", live as u64);
+    if live == 0 {
+        return;
+    }
+    if s.segment_readers().len() != 1 {
+        rep.violation("merge_filtered:not-one-segment", json!({"n": s.segment_readers().len()}));
+        return;
+    }
+    match dump_segment(&s.segment_readers()[0], &hs) {
+        Err((sig, d)) => rep.violation(format!("merge_filtered:output-{sig}"), json!({"case": case, "shape": shape, "detail": d})),
+        Ok(out) => {
+            for (sig, d) in validate_merge(&sources, &out, &None) {
+                rep.violation(format!("merge_filtered:{sig}"), json!({"case": case, "shape": shape, "blocksize": blocksize, "detail": d}));
+            }
+            shape.sort();
+            shape.dedup();
+            rep.nontrivial(format!("merge_filtered:bs={blocksize}:{}", shape.join(",")));
+        }
+    }
+}
+
 /// merge_indices: several indexes merged into a fresh directory.
 fn merge_indices_case(case: u64, rng: &mut Rng, rep: &mut Report) {
     let n = rng.urange(1, 3);
@@ -754,6 +929,7 @@ fn main() {
     let ctx = Ctx::from_env("C04", "translation_validation");
     let mut rep = run_cases(&ctx, "explicit", ctx.scale(300, 20000) as u64, explicit_case);
     rep.merge(run_cases(&ctx, "merge_indices", ctx.scale(60, 3000) as u64, merge_indices_case));
+    rep.merge(run_cases(&ctx, "filtered", ctx.scale(120, 6000) as u64, filtered_case));
     rep.merge(run_cases(&ctx, "forced", ctx.scale(150, 8000) as u64, forced_case));
     rep.merge(run_cases(&ctx, "policy", ctx.scale(200, 10000) as u64, policy_case));
     rep.merge(run_cases(&ctx, "stale-merge", ctx.scale(40, 2000) as u64, stale_merge_case));
